@@ -18,6 +18,11 @@ claimed = {
  "C07": ("DESIGN.md §6 C07", "Families 'empty' (CopyTo with every active branch or none) and 'reset' (CopyFrom with every mix of known / null / unknown branch attributes x every prior holder state); clauses C07.to.inactive_null, C07.to.active_iff_nonzero, C07.from.single, C07.from.none at every nesting level."),
  "C08": ("DESIGN.md §6 C08", "Family 'echo': TLC enumerates the plans inside the property's quantifier (C08Plan); LoadPlan goes through the framework's own decoder; LoadPlan;FreshObj;CopyFrom;CopyTo;FreshObj;CopyFrom replayed in the real code; clauses C08.noerror, nounknown, known_unchanged, coll_shape, redecode."),
  "C09": ("DESIGN.md §6 C09", "Family 'refresh': all pairs (thorough: triples) of struct values per shape: SetObj v1;NewEmpty;CopyTo;SetObj v2;CopyTo;CopyTo replayed in the real code; clauses C09.noerror, nounknown, list.len, list.elems, map.keys, map.vals, scalar.follow, ptr.null_iff_nil, msg.nil_null, idempotent."),
+ "C10": ("DESIGN.md §6 C10", "Family 'genflags': runs over flag lists (full-path and Message.field keys), validator / plan-modifier lists (tagged constructors), use_state_for_unknown_by_default, injected fields (root and nested paths) and seven comment patterns (multi-line, indented, CRLF, empty lines) on fields of root, nested, list-element, map-value, embedded and empty messages; the real tfsdk.Schema is compared attribute by attribute with spec/Schema.tla; thorough: full product of the flag key sets."),
+ "C12": ("DESIGN.md §6 C12", "Family 'genselect': every non-empty types selection of a 4-message file x sort x {plain, extra message, extra dependency file}; C12.exact on the function set of each run, C12.text_independent: per-function source text hash equal across all runs of a group (trace validator's group memory)."),
+ "C14": ("DESIGN.md §6 C14", "Family 'gendet': a configuration with several entries in every option; the identical request is run repeatedly and with seeded permutations of YAML key / list-entry / +-list order (quick 18, thorough 70 per configuration); clause C14.same_sha on the raw response bytes. The specification states what may vary between runs (log output of Config.dump) and what may not (the response)."),
+ "C16": ("DESIGN.md §6 C16", "Family 'genconfig': one configuration delivered through every single-option channel assignment (CLI / both with contradicting YAML), all-CLI, all-both and mixed assignments (same request paths, generated file hash compared: C16.channel_equiv, C16.cli_wins); failure cases no types / unreadable / malformed YAML (C16.*_fails, *_nofile)."),
+ "C18": ("DESIGN.md §6 C18", "Family 'genwhole': a selected type with one unmappable field (time / duration without configured type, non-string map key) at top level, nested, under list / map / embed / oneof / depth 3, next to a healthy type; runs without the type, with it, and with the field excluded; clauses C18.none_for_poisoned, others_intact (function text hashes equal across the group), logged, exclude_restores (schema + CopyTo clauses on the restored type)."),
  "C20": ("DESIGN.md §6 C20", "Same traces as C03; clauses C20.* state null <=> absent per attribute outside list/map elements at every depth, evaluated by TLC on the real post-state."),
 }
 technique = "explicit TLA+ spec (Session/CopyTo/CopyFrom/Contract), TLC exhaustive enumeration as test generator, replay in the real generated code, TLC trace validation of the recorded states"
